@@ -1278,6 +1278,7 @@ func (x *Exec) inlineFunc(st *State, fr *Frame, ce *ast.CallExpr, f *types.Func,
 	}
 	savedLoop, savedLit, savedCall := x.loopOrd, x.litOrd, x.callOrd
 	x.number(decl.Body)
+	x.collectLocalAssigns(decl.Body)
 	saveDefers := in.defers
 	in.defers = nil
 	nfr.ret = func(s2 *State, res []Term) {
